@@ -162,9 +162,9 @@ theorem step_probability (P : ℝ) :
   rw [this, Real.volume_Ico]
   simp
 
-/-- non-vacuity: default kinetics (a = 29, b = 29.3, c = 1), 1 cm³ vial, Δt = 2 s: a liquid vial
-at −12 °C (T_eq_l ≈ −0.285 °C) is a candidate with positive step probability, and a draw of 0
-makes it nucleate at the controlled-nucleation step. -/
+/-- non-vacuity: default kinetics (a = 29, b = 29.3, c = 1, ξ = 0), 1 cm³ vial, Δt = 2 s,
+T_eq_l ≈ −0.285 °C: the hypotheses of `P_pos` and `P_mono_supercooling` hold for a vial at −12 °C
+(positive step probability) and the probability at −13 °C is strictly larger. -/
 theorem nonvacuous :
     let c : Consts ℝ := {
       solid_fraction := 0.05, cp_s := 1240, cp_w := 4187, cp_i := 2108
